@@ -772,6 +772,13 @@ func main() {
 		for _, x := range w.excluded {
 			excluded[x] = true
 		}
+		r.Add("verify_layer_cases", int64(w.verifyLayerCases))
+		for i, x := range w.verifyLayer {
+			if i >= 3 {
+				break
+			}
+			r.Violate(ev.Violation{Engine: "poolmc", Key: "c11 verify-layer " + sh.String() + " " + x, What: "shape " + sh.String() + ": " + x, Artefact: map[string]any{"kind": "verify-layer", "shape": sh, "case": x}})
+		}
 		if r.Expired() {
 			r.Cap("deadline")
 			break
